@@ -689,3 +689,105 @@ def run_C16(ctx):
                        "policies / entities / requests are derived from each resolved schema by the harness, not enumerated by TLC"]
     run_schema(ctx, "total", 1)
     return vlib.finish(ctx, confirm_all)
+
+
+# ====================================================================== C15 validator soundness
+
+_typing_table = {}
+
+
+def typing_prep(f, d):
+    return {"table.ndjson": _typing_table["path"]}
+
+
+vlib.TRACE_PREP["Trace_Typing"] = typing_prep
+
+
+def describe_typing(ev, obs, entry):
+    if ev.get("op") == "typingenvs":
+        return "typing universe: the real validator rejects conforming environment %s: %s (specification drift)" % (
+            (entry.get("items") or [{}])[0].get("env"), json.dumps((obs or {}).get("why"))[:300])
+    items = entry.get("items") or []
+    parts = []
+    for it in items[:3]:
+        i = it["idx"] - 1
+        p = (ev.get("policies") or [])[i]
+        v = ((obs or {}).get("verdicts") or [{}] * 999)[i]
+        if it.get("panic"):
+            parts.append("%s => validator %s" % (pretty.sp(p), json.dumps(v)))
+        else:
+            env = _typing_table.get("envs", [])[it["env"] - 1] if _typing_table.get("envs") else {}
+            parts.append("%s => accepted (%s), but under the conforming request %s evaluation fails with a %s error (%d of the environments)" % (
+                pretty.sp(p), ", ".join(sorted(it.get("modes") or [])), pretty.sreq(env) if env else it["env"], it.get("cls"), it.get("n", 0)))
+    return "typing " + " | ".join(parts)
+
+
+def shrink_typing(ev, entry=None):
+    if ev.get("op") != "typing" or len(ev.get("policies") or []) <= 1:
+        return []
+    return [dict(ev, policies=[ev["policies"][it["idx"] - 1]]) for it in (entry or {}).get("items") or []]
+
+
+KINDS["typing"] = dict(module="Trace_Typing", shrink=shrink_typing, describe=describe_typing)
+
+
+@prop("C15")
+def run_C15(ctx):
+    ctx.rule = ("spec/Typing.tla states what validation promises: for an accepted policy, under every request and store that conform to the "
+                "schema, evaluation (the specification's evaluator, C01) does not fail with a type / arity / unknown-function error, a "
+                "missing attribute (record, or entity present in the store) or a missing tag; overflow, absent entities and extension "
+                "errors remain allowed. It also defines conformance (ConformsV / ConformsEntity / ConformsEnv over SchemaModel!Resolve); "
+                "MC_Typing's environments are checked to conform (ASSUME EnvsConform) and the real Validator.Request / Entities must "
+                "accept each of them (otherwise: specification drift, exit 2). MC_Typing enumerates the policies over a schema with "
+                "required / optional attributes of every type, nested records, sets, the four extension types, tags, an optional "
+                "entity-typed attribute, an action group and two actions with different contexts: every binary operator over every "
+                "ordered pair of 39 typed leaves (attributes at depth 1-2 of principal / resource / context, tags, literals), every unary "
+                "operator and 10 + 5 extension functions over the leaves, and 50 guard forms (has / hasTag before access in && / || / ! "
+                "/ then / else positions, `is` guards, LUB of optional access in sets / records / if), under three action scopes. The real "
+                "validator judges each policy in strict and permissive mode; Trace_Typing evaluates every ACCEPTED policy under all "
+                "40 conforming environments (optional members present / absent, entities present in / absent from the store, both "
+                "actions) and demands Typing!Sound. distinct = distinct policies.")
+    ctx.assumptions = ["the typing rules themselves are not modelled: the statement is about what the real validator accepts",
+                       "error classes come from the TLA+ evaluator (value-vs-failure agreement with the real evaluator is C01)",
+                       "one schema and a bounded universe of conforming data; unsoundness that needs other shapes is missed"]
+    q = ctx.quick
+    res = vlib.tlc(ctx, "policies.gen", "MC_Typing", GEN_CFG + "INVARIANT EmitTable\nCONSTANT Stride = %d\n" % (4 if q else 1),
+                   ["mc/MC_Typing.tla"], 1, (), None, 7200)
+    d = res["dir"]
+    table = vlib.read_ndjson(os.path.join(d, "table.ndjson"))[0]
+    _typing_table.update(path=os.path.join(d, "table.ndjson"), envs=table["envs"])
+    pols = [c["policy"] for c in vlib.read_ndjson(os.path.join(d, "cases.ndjson"))]
+    if len(pols) < 500:
+        raise Broken("only %d policies generated" % len(pols))
+    events = [dict(op="typingenvs", schema=table["schema"], envs=table["envs"])]
+    for k in range(0, len(pols), 100):
+        events.append(dict(op="typing", schema=table["schema"], policies=pols[k:k + 100]))
+    shards = 4 if q else vlib.MAX_SHARDS
+    files = []
+    for k in range(shards):
+        inp, outp = os.path.join(d, "in.%d" % k), os.path.join(d, "ev.%d" % k)
+        vlib.write_ndjson(inp, events[k::shards])
+        vlib.harness(["exec", "-in", inp, "-out", outp])
+        files.append(outp)
+    ctx.cov["evaluations"] += len(pols)
+    ctx.cov["distinct_nontrivial"] += len(set(json.dumps(p, sort_keys=True) for p in pols))
+    acc = 0
+    for f in files:
+        for ev in vlib.read_ndjson(f):
+            for v in (ev.get("obs") or {}).get("verdicts") or []:
+                acc += v.get("strict") == "accept" or v.get("permissive") == "accept"
+    ctx.extra["policies_accepted_by_the_real_validator"] = acc
+    if acc < 50:
+        raise Broken("the validator accepted only %d policies: the universe does not exercise the statement" % acc)
+    ctx.sample(dict(stage="policies", kind="tlc-generated policies judged by the real validator", event=dict(vlib.read_ndjson(files[0])[-1], schema="(see table)")))
+    results = vlib.tlc_validate(ctx, "policies", "Trace_Typing", files)
+    for f, bad in results:
+        if not bad:
+            continue
+        evs = vlib.read_ndjson(f)
+        for b in bad:
+            ev = evs[b["event"] - 1]
+            if ev.get("op") == "typingenvs":
+                raise Broken("specification drift: the real validator rejects a conforming environment: %s" % json.dumps(ev["obs"].get("why"))[:400])
+            ctx.candidates.append(dict(kind="typing", stage="policies", event=ev))
+    return vlib.finish(ctx, confirm_all)
